@@ -28,7 +28,7 @@ CHECKS = {
              'order with an initial state that depends only on (seed, batch index). The multiprocessing client is '
              'cross-checked free-running; thorough repeats a table under another PYTHONHASHSEED.',
         note='Trusted: numpy RandomState determinism; uuid-based private node names are pinned (three offsets) and are '
-             'outside the quantifier; real worker processes add no schedule coverage.',
+             'outside the quantifier; real worker processes add no schedule coverage. One open known finding (adaptation state of an AdaptiveDistance node left in the user\'s model by a sampler run).',
         design_ref='4 C02'),
     'C03': dict(
         level='exploration',
